@@ -257,6 +257,8 @@ func senderPool(from int) []*actor.PID {
 		actor.NewPID("a", "bc"),
 		actor.NewPID(addrOf(from), "snd/b"),
 		actor.NewPID("local", "x/1"),
+		actor.NewPID(addrOf(from), "snd/"+strings.Repeat("deep/", 30)+"a"),
+		actor.NewPID(addrOf(from), "snd/"+strings.Repeat("deep/", 30)+"b"),
 	}
 }
 
@@ -433,6 +435,11 @@ func runEncoding(rc *core.RunCtx) {
 	g := simrt.G()
 	rc.PostRun = func(res *simrt.Result) { crashClause(rc, res, "C15", "C17") }
 	targets := []string{"rec/r0", "rec/r1", "rec/r2"}[:g.Range(2, 3)]
+	if g.Bool(0.3) {
+		// long ids that share a long prefix (deep child hierarchies look like this)
+		long := "rec/" + strings.Repeat("deep/", 30)
+		targets = append(targets, long+"a", long+"b")
+	}
 	if _, err := w.StartNode(1, nil); err != nil {
 		panic(err)
 	}
